@@ -261,6 +261,10 @@ func parseExec(oracle parseOracle, nontrivial func(c *Sexp, obs parseObs) bool) 
 		if oracle != nil {
 			o.OracleFail = oracle(c, obs)
 		}
+		if o.OracleFail == "" {
+			// every parse-level stream: the parse on a graph that has been used before must equal the parse on a fresh graph
+			o.OracleFail = reuseOracle(obs)
+		}
 		if nontrivial != nil {
 			o.Nontrivial = nontrivial(c, obs)
 		}
@@ -384,10 +388,17 @@ func quickN(q, t int) func(string) int {
 
 // ---- oracles -----------------------------------------------------------------------------------------
 
-func oracleC04(c *Sexp, obs parseObs) string {
+func reuseOracle(obs parseObs) string {
 	if obs.viaParseFull != "" && obs.viaParseFull != obs.viaParse && !strings.Contains(obs.viaParseFull, "node index is out of bounds") {
 		// (Select's StaticCheck panics on an index beyond the children — the documented panic of that interpreter)
 		return fmt.Sprintf("parsley.Parse on a parser graph that already parsed another input, with transformation and static check enabled (no interpreter transforms or checks anything), differs: %s, on a fresh graph without them: %s", obs.viaParseFull, obs.viaParse)
+	}
+	return ""
+}
+
+func oracleC04(c *Sexp, obs parseObs) string {
+	if m := reuseOracle(obs); m != "" {
+		return m
 	}
 	if (obs.node == nil) == (obs.perr == nil) {
 		return fmt.Sprintf("parsley.Parse returned node=%v err=%v: exactly one of them must be non-nil", obs.node, obs.perr)
